@@ -41,7 +41,7 @@ CHECKS: dict[str, dict[str, str]] = {
         technique='explicit TLA+ model of peering (Peering.tla: keep-alive, evaluation of queued snapshots, clean, deadline sleep, graceful '
                   'exit, kill, foreign writes) checked exhaustively with TLC incl. liveness; executions of 1-3 real operators sharing a peering '
                   'object in virtual time validated by TLC against the specification (Trace_Peering.tla, with time urgency)',
-        text='[+ PauseSet runs with a second served kind whose CRD comes and goes while a peering holds the operator paused] [+ the streams of the peering object are cut after the version has grown by a digit; the peering watcher tasks through Trace_Streaming] [+ the watcher tasks of the handled kind in all runs validated step by step against Streaming.tla: closed in the instant the pause reaches the task, nothing requested while paused, back-off and a fresh listing afterwards] [+ schedules drawn by TLC (-simulate on Sim_Peering) replayed into the real operators] TLC: RenewsInTime and WithdrawsOnExit in every state, ExactlyTop / EventuallyStable and CleansDead under fairness, for every '
+        text='[+ at rest an active operator runs a daemon on every object again] [+ PauseSet runs with a second served kind whose CRD comes and goes while a peering holds the operator paused] [+ the streams of the peering object are cut after the version has grown by a digit; the peering watcher tasks through Trace_Streaming] [+ the watcher tasks of the handled kind in all runs validated step by step against Streaming.tla: closed in the instant the pause reaches the task, nothing requested while paused, back-off and a fresh listing afterwards] [+ schedules drawn by TLC (-simulate on Sim_Peering) replayed into the real operators] TLC: RenewsInTime and WithdrawsOnExit in every state, ExactlyTop / EventuallyStable and CleansDead under fairness, for every '
              'order of starts, exits, kills and foreign writes of 2-3 operators with stale snapshots queued; negative and witness '
              'configurations (period = lifetime; families F26, F27). Real operators: every PATCH of the peering object must be the write '
              'the specification predicts at that instant (content and time), every evaluation must split the peers into dead / higher / '
@@ -121,7 +121,7 @@ CHECKS: dict[str, dict[str, str]] = {
     'C15': dict(
         technique='TLA+ reference of handler selection (Filters.tla, an executable reading of docs/filters.rst) checked by TLC over the '
                   'declaration x state space; real decorators/registries run on the same space, records judged by TLC; closed-loop stealth traces',
-        text='[+ crowd runs: a sixth of the scenarios again with a namesake kind (same plural, another group), a namesake object and a second object of the main kind on a schedule of their own; the log is reduced to the main object and validated by the unchanged single-object specifications: every object behaves as if it were alone] [+ the resource-selector criterion also on kinds re-described at runtime (same group/version/plural, other categories / shortcuts / preferred version)] [+ the resource selector: Filters!SelMatches (group, version vs preferred, kind/plural/singular/shortcut/category/any-name/EVERYTHING/callable, Kubernetes events excluded) vs the real Selector.check and the registry] Every declaration of the criteria alphabet (9 handler kinds x label criteria incl. two keys x field/value criteria x old/new x '
+        text='[+ the criteria in the closed loop: several update handlers of different criteria on one object, edits at rest and in mid-cycle] [+ crowd runs: a sixth of the scenarios again with a namesake kind (same plural, another group), a namesake object and a second object of the main kind on a schedule of their own; the log is reduced to the main object and validated by the unchanged single-object specifications: every object behaves as if it were alone] [+ the resource-selector criterion also on kinds re-described at runtime (same group/version/plural, other categories / shortcuts / preferred version)] [+ the resource selector: Filters!SelMatches (group, version vs preferred, kind/plural/singular/shortcut/category/any-name/EVERYTHING/callable, Kubernetes events excluded) vs the real Selector.check and the registry] Every declaration of the criteria alphabet (9 handler kinds x label criteria incl. two keys x field/value criteria x old/new x '
              'when) is registered through the real kopf.on.* decorators; every object/old/new state becomes a real cause; the real registry\'s '
              'selection is compared with Filters!Matches for each pair by TLC (bounded-exhaustive, 50-200k pairs). De-duplication by (fn, id) '
              'and the stealth guarantee (closed loop, Trace_Handling: Stealth) are part of the check. Families F10, F11 are TLA+ predicates.',
@@ -149,7 +149,7 @@ CHECKS: dict[str, dict[str, str]] = {
     'C04': dict(
         technique='TLA+ reference semantics of essence and diff (Essence.tla over JV.tla); TLC checks the diff laws on the reference for all '
                   'pairs of small bodies; records of the real essence/diff functions are judged by TLC (ClassifyC04)',
-        text='[+ crowd runs: a sixth of the scenarios again with a namesake kind (same plural, another group), a namesake object and a second object of the main kind on a schedule of their own; the log is reduced to the main object and validated by the unchanged single-object specifications: every object behaves as if it were alone] [+ ReplicaSet-owned-by-Deployment bodies in the echo runs; an echo after a restart with a fresh storage object] [+ echo records: the last-handled state fetched back after the framework\'s own write equals the essence of the object, empty essences included] [+ ordinary annotations of look-alike domains (keys that merely begin with a managed prefix)] DiffSound / DiffComplete / ReduceExact hold on the reference for 810 900 (quick) or 9.8 million (thorough) pairs of bodies. '
+        text='[+ the narrowed old / new as the functions are given them when several field handlers run in one cycle] [+ crowd runs: a sixth of the scenarios again with a namesake kind (same plural, another group), a namesake object and a second object of the main kind on a schedule of their own; the log is reduced to the main object and validated by the unchanged single-object specifications: every object behaves as if it were alone] [+ ReplicaSet-owned-by-Deployment bodies in the echo runs; an echo after a restart with a fresh storage object] [+ echo records: the last-handled state fetched back after the framework\'s own write equals the essence of the object, empty essences included] [+ ordinary annotations of look-alike domains (keys that merely begin with a managed prefix)] DiffSound / DiffComplete / ReduceExact hold on the reference for 810 900 (quick) or 9.8 million (thorough) pairs of bodies. '
              'The real diffbase.build + progress.clear, storages\' store/purge/touch, finalizer edits, diffs.diff and diffs.reduce are run on '
              'bounded-exhaustive bodies x 4 storage configurations (x extra fields) and on hypothesis-generated documents; TLC decides for '
              'every record: own / foreign-Kopf writes invisible, other edits visible, essence equal to the reference Essence, diffs equal to '
@@ -172,7 +172,7 @@ CHECKS: dict[str, dict[str, str]] = {
     'C03': dict(
         technique='explicit TLA+ model of the closed loop of one object (Handling.tla) checked exhaustively with TLC; traces of the real '
                   'kopf.operator() in the world simulator validated by TLC against the specification (Trace_Handling.tla)',
-        text='[+ crowd runs: a sixth of the scenarios again with a namesake kind (same plural, another group), a namesake object and a second object of the main kind on a schedule of their own; the log is reduced to the main object and validated by the unchanged single-object specifications: every object behaves as if it were alone] [+ histories with sub-handlers run to quiescence] [+ multi-step deletions and retries at once in the histories] [+ TLC-drawn histories (Sim_Handling); histories of the consistency and finalizer profiles; user transformations carried forward] TerminalConverged on configurations without doors / with kills, stops, restarts, re-listings; Termination under weak fairness; witness configurations for the known families F8, F20, F21, F22; histories run to quiescence: final state Converged (or excused by a known family) and no PATCH in the tail window' ' -- checked by TLC on Handling.tla for every interleaving of the bounded configurations, and on every state of '
+        text='[+ ConvergeMonitor.tla: sub-handlers of sub-handlers -- at rest no record of any level remains, the last-handled state is the final one, every handler of every level has succeeded on it] [+ crowd runs: a sixth of the scenarios again with a namesake kind (same plural, another group), a namesake object and a second object of the main kind on a schedule of their own; the log is reduced to the main object and validated by the unchanged single-object specifications: every object behaves as if it were alone] [+ histories with sub-handlers run to quiescence] [+ multi-step deletions and retries at once in the histories] [+ TLC-drawn histories (Sim_Handling); histories of the consistency and finalizer profiles; user transformations carried forward] TerminalConverged on configurations without doors / with kills, stops, restarts, re-listings; Termination under weak fairness; witness configurations for the known families F8, F20, F21, F22; histories run to quiescence: final state Converged (or excused by a known family) and no PATCH in the tail window' ' -- checked by TLC on Handling.tla for every interleaving of the bounded configurations, and on every state of '
              'the behaviour that explains each recorded trace of the real operator (seeded random scenarios of profile converge; every '
              'PATCH is compared with the specification\'s server object field by field, virtual time is bound by urgency). Daemons and timers '
              'hold the finalizer too: the daemon executions of C09 are validated against Spawning.tla (Trace_Spawning: every finalizer write must '
@@ -184,7 +184,7 @@ CHECKS: dict[str, dict[str, str]] = {
     'C06': dict(
         technique='explicit TLA+ model of the closed loop of one object (Handling.tla) checked exhaustively with TLC; traces of the real '
                   'kopf.operator() in the world simulator validated by TLC against the specification (Trace_Handling.tla)',
-        text='[+ crowd runs: a sixth of the scenarios again with a namesake kind (same plural, another group), a namesake object and a second object of the main kind on a schedule of their own; the log is reduced to the main object and validated by the unchanged single-object specifications: every object behaves as if it were alone] [+ multi-step deletions (a second deletion handler, retries at once); the known family F9 (deletion handlers started anew while the object is held for a stopping daemon) named by Handling!Family_F9 on the validated prefix of a livelocked run] NeverEarly (the finalizer is withdrawn from a deleting object only after every mandatory matching deletion handler has finished), ForeignUntouched, FollowsMatching, with foreign finalizer edits, toggles, deletions and 422 conflicts' ' -- checked by TLC on Handling.tla for every interleaving of the bounded configurations, and on every state of '
+        text='[+ TickMonitor.tla: the object is held while a timer\'s function runs, which is never cancelled; F38 (known finding) named by Handling!Family_F38, shown in the model by MC_Handling_neg_f38] [+ crowd runs: a sixth of the scenarios again with a namesake kind (same plural, another group), a namesake object and a second object of the main kind on a schedule of their own; the log is reduced to the main object and validated by the unchanged single-object specifications: every object behaves as if it were alone] [+ multi-step deletions (a second deletion handler, retries at once); the known family F9 (deletion handlers started anew while the object is held for a stopping daemon) named by Handling!Family_F9 on the validated prefix of a livelocked run] NeverEarly (the finalizer is withdrawn from a deleting object only after every mandatory matching deletion handler has finished), ForeignUntouched, FollowsMatching, with foreign finalizer edits, toggles, deletions and 422 conflicts' ' -- checked by TLC on Handling.tla for every interleaving of the bounded configurations, and on every state of '
              'the behaviour that explains each recorded trace of the real operator (seeded random scenarios of profile finalizer; every '
              'PATCH is compared with the specification\'s server object field by field, virtual time is bound by urgency). Daemons and timers '
              'hold the finalizer too: the daemon executions of C09 are validated against Spawning.tla (Trace_Spawning: every finalizer write must '
